@@ -328,7 +328,7 @@ func init() {
 
 func c07Depth(tier string) (int, int) {
 	if tier == "thorough" {
-		return 5, 5
+		return 5, 6
 	}
 	return 4, 4
 }
